@@ -120,8 +120,8 @@ func flight1Generate(
 		})
 	}
 
-	if len(cfg.ServerName) > 0 {
-		extensions = append(extensions, &extension.ServerNameOffer{ServerName: cfg.ServerName})
+	if sniName := cfg.SNIName(); len(sniName) > 0 {
+		extensions = append(extensions, &extension.ServerNameOffer{ServerName: sniName})
 	}
 
 	if len(cfg.LocalSRTPProtectionProfiles) > 0 {
